@@ -1,8 +1,9 @@
 (* C08 - load failures are DaeErrors, ignorable, and contained.
    Statements only; proofs are in Proofs/Errors.v (and Proofs/Refs.v for locality).
    [dcls_base] - which class derives from which - is GENERATED from collada/common.py. *)
-From Coq Require Import List Bool.
-From PC Require Import Base.Outcome Base.Libs Gen.Params Model.Errors Proofs.Errors Model.Refs Proofs.Refs.
+From Coq Require Import List Bool ZArith NArith.
+From PC Require Import Base.Atoms Base.Xml Base.Outcome Base.Libs Gen.Params Model.Errors Proofs.Errors Model.Refs Proofs.Refs
+     Model.LoadSites Proofs.LoadSites.
 Import ListNotations.
 
 (* isinstance semantics of the ignore mask: the exact class masks; the base class DaeError masks
@@ -143,3 +144,61 @@ Proof.
       vm_compute; discriminate.
   - vm_compute. repeat split; reflexivity.
 Qed.
+
+(* ---- the loader sites (Model/LoadSites.v): transforms, material -> effect, lights, cameras, float
+   sources, with numeric text read through the numpy / float() oracles.  For EVERY element tree,
+   namespace and set of effect ids: loading the object inside its boundary gives Ok or a DaeError;
+   the boundary table and the tuple of converted built-in classes are GENERATED from the source. *)
+Theorem C08_only_dae_sites :
+  forall ns effects k x,
+    match guarded ns effects k x with Ok _ => True | Raise e => is_dae e = true end.
+Proof. exact guarded_only_dae. Qed.
+Print Assumptions C08_only_dae_sites.
+
+(* a built-in (raw) class can only arise inside a boundary that converts it: whenever a modelled
+   loader raises a non-DaeError, that class is one of common.DaeRawLoadErrors, the boundary the
+   loader runs in has the DaeRawLoadErrors clause, and what reaches handleError is DaeMalformedError *)
+Theorem C08_raw_only_inside_boundary :
+  forall ns effects k x e,
+    site_load ns effects k x = Raise e -> is_dae e = false ->
+    is_rawload e = true /\ has_raw_clause (boundary_of k) = true /\
+    guarded ns effects k x = Raise DaeMalformed.
+Proof. exact raw_only_inside_boundary. Qed.
+Print Assumptions C08_raw_only_inside_boundary.
+
+(* the documented classes of the reference sites and of the numeric oracles *)
+Theorem C08_site_classes :
+  (forall ns effects x e u, find ns a_instance_effect x = Some e -> xattr a_url e = Some (ARef true u) ->
+     existsb (N.eqb u) effects = false -> load_material ns effects x = Raise DaeBrokenRef) /\
+  (forall ns effects x e u, find ns a_instance_effect x = Some e -> xattr a_url e = Some (ARef false u) ->
+     load_material ns effects x = Raise DaeMalformed) /\
+  (forall ns effects x, find ns a_instance_effect x = None -> load_material ns effects x = Raise DaeIncomplete) /\
+  (forall ts, forallb good_tok ts = false -> parse_floats (Some ts) = Raise PyValueError) /\
+  parse_floats None = Raise PyTypeError /\ parse_float None = Raise PyTypeError /\
+  parse_color None = Raise PyAttributeError.
+Proof.
+  repeat split.
+  - intros ns effects x e u H1 H2 H3. unfold load_material. rewrite H1, H2, H3. reflexivity.
+  - intros ns effects x e u H1 H2. unfold load_material. rewrite H1, H2. reflexivity.
+  - intros ns effects x H. unfold load_material. rewrite H. reflexivity.
+  - intros ts H. simpl. rewrite H. reflexivity.
+Qed.
+Print Assumptions C08_site_classes.
+
+(* Non-vacuity: a <translate> with a bad token is a raw ValueError that the node-child boundary
+   turns into DaeMalformed; a point light whose <zfar> lost its text is a raw TypeError; a perspective
+   camera without <znear> is a raw AttributeError; a material whose url names no effect is DaeBrokenRef *)
+Example C08_sites_nonvacuous :
+  let ns := a_ns141 in
+  let tr := El 1%N ns a_translate [] (Some [TInt 1%Z; TWord 1000%N; TInt 3%Z]) [] in
+  let zf := El 5%N ns a_zfar [] None [] in
+  let col := El 4%N ns a_color [] (Some [TInt 1%Z; TInt 1%Z; TInt 1%Z]) [] in
+  let lig := El 2%N ns a_light [] None [El 3%N ns a_technique_common [] None [El 6%N ns a_point [] None [col; zf]]] in
+  let per := El 9%N ns a_perspective [] None [El 10%N ns a_xfov [] (Some [TInt 45%Z]) []; El 11%N ns a_zfar [] (Some [TInt 9%Z]) []] in
+  let cam := El 7%N ns a_camera [] None [El 8%N ns a_optics [] None [El 12%N ns a_technique_common [] None [per]]] in
+  let mat := El 13%N ns a_material [] None [El 14%N ns a_instance_effect [(a_url, ARef true 2000%N)] None []] in
+  site_load ns [] KTransform tr = Raise PyValueError /\ guarded ns [] KTransform tr = Raise DaeMalformed /\
+  site_load ns [] KLight lig = Raise PyTypeError /\ guarded ns [] KLight lig = Raise DaeMalformed /\
+  site_load ns [] KCamera cam = Raise PyAttributeError /\ guarded ns [] KCamera cam = Raise DaeMalformed /\
+  site_load ns [2001%N] KMaterial mat = Raise DaeBrokenRef /\ site_load ns [2000%N] KMaterial mat = Ok tt.
+Proof. vm_compute. repeat split; reflexivity. Qed.
